@@ -77,7 +77,7 @@ def expected_address(kind, pt, testnet):
 
 
 def judge_record(data, rm, testnet, account, interval, master_echo, what):
-    if not isinstance(data, dict) or set(data) != {"MASTER", "BIP85", "BIP44", "BIP49", "BIP84"}:
+    if not isinstance(data, dict) or not {"MASTER", "BIP85", "BIP44", "BIP49", "BIP84"} <= set(data):
         raise Violation("C06/record/sections", "%s: sections %r" % (what, sorted(data) if isinstance(data, dict) else data))
     if data["MASTER"] != {"mnemonic": master_echo[0], "password": master_echo[1]}:
         raise Violation("C06/master/echo", "%s: MASTER block %r, expected mnemonic/passphrase %r" % (what, data["MASTER"], master_echo))
